@@ -67,7 +67,7 @@ fn op_refs_mut<'a>(op: &'a mut Op, out: &mut Vec<&'a mut usize>, hays: &mut Vec<
             src_searches_mut(a, out, hays);
             src_searches_mut(b, out, hays);
         }
-        Op::WithClone(inner) => op_refs_mut(inner, out, hays),
+        Op::WithClone(inner) | Op::OrphanClone(inner) => op_refs_mut(inner, out, hays),
         Op::StartIter { src, .. } => src_searches_mut(src, out, hays),
         Op::ResumeIter { .. } => {}
     }
@@ -153,6 +153,7 @@ pub fn minimise(sc: &ThreadScenario, target: &str, budget: usize) -> (ThreadScen
                 let op = cur.threads[t][i].clone();
                 let simpler: Vec<Op> = match &op {
                     Op::WithClone(inner) => vec![(**inner).clone()],
+                    Op::OrphanClone(inner) => vec![Op::WithClone(inner.clone()), (**inner).clone()],
                     Op::Stream(p) => {
                         let mut v = Vec::new();
                         if !p.sc.faults.is_empty() {
